@@ -67,6 +67,10 @@ Theorem C03_views_agree_conv :
          a_get keq m x = Some v -> exists k : K, In (k, v) m /\ keq x k = true.
 Proof. exact C03_views_conv. Qed.
 
+Example C03_views_agree_conv_example :
+  a_get keq ex_cat kb = Some (iv 2) /\ In (kb, iv 2) ex_cat /\ keq kb kb = true.
+Proof. split; [vm_compute; reflexivity|]. split; [right; left; reflexivity|vm_compute; reflexivity]. Qed.
+
 Theorem C03_set_existing_keeps_position :
   forall (K V : Type) (keq : K -> K -> bool) (m : list (K * V)) (k : K) (v : V),
          a_get keq m k <> None ->
@@ -113,6 +117,10 @@ Theorem C03_absent_reads_zero :
          a_get keq m k = None -> a_get_or_zero vzero keq m k = vzero.
 Proof. exact a_get_or_zero_absent. Qed.
 
+Example C03_absent_reads_zero_example :
+  a_get keq ex_cat kd = None /\ a_get_or_zero (iv 0) keq ex_cat kd = iv 0.
+Proof. split; vm_compute; reflexivity. Qed.
+
 Theorem C03_lookup_after_set :
   forall (K V : Type) (keq : K -> K -> bool),
          (forall a b : K, keq a b = keq b a) ->
@@ -120,6 +128,12 @@ Theorem C03_lookup_after_set :
          forall (m : list (K * V)) (k : K) (v : V) (x : K),
          a_get keq (a_set keq m k v) x = (if keq x k then Some v else a_get keq m x).
 Proof. exact a_get_set. Qed.
+
+Example C03_lookup_after_set_example :
+  (forall a b : val, keq a b = keq b a) /\
+  (forall a b c : val, keq a b = true -> keq b c = true -> keq a c = true) /\
+  a_get keq (a_set keq ex_cat kb (iv 20)) kb = Some (iv 20) /\ a_get keq (a_set keq ex_cat kb (iv 20)) kc = Some (iv 3).
+Proof. split; [exact keq_sym|]. split; [exact keq_trans|]. split; vm_compute; reflexivity. Qed.
 
 Theorem C03_lookup_after_remove :
   forall (K V : Type) (keq : K -> K -> bool),
@@ -157,6 +171,13 @@ Theorem C03_reorder_keeps_distinct :
          (forall a b : K, keq a b = keq b a) ->
          forall m m' : list (K * V), wfm K V keq m -> Permutation.Permutation m m' -> wfm K V keq m'.
 Proof. exact wfm_perm. Qed.
+
+Example C03_reorder_keeps_distinct_example :
+  wfm val val keq ex_cat /\ Permutation.Permutation ex_cat (rev ex_cat) /\ wfm val val keq (rev ex_cat).
+Proof.
+  split; [exact (distinctb_ok val val keq ex_cat eq_refl)|]. split; [apply Permutation.Permutation_rev|].
+  apply (C03_reorder_keeps_distinct val val keq keq_sym ex_cat (rev ex_cat) (distinctb_ok val val keq ex_cat eq_refl)). apply Permutation.Permutation_rev.
+Qed.
 
 Theorem C03_bulk_remove :
   forall (K V : Type) (vzero : V) (keq : K -> K -> bool),
